@@ -128,4 +128,26 @@ def run(ctx, prog, res):
     r5.check(ok, {"fn": br.id, "comments": (sh or "")[:200]}, "C17.R5:both-positions", "the rule's comments are not the chain of the modifier comment and the leading comment: %s" % sh, lib.where_of(br))
 
     # W --------------------------------------------------------------------------------------
+    # R6 -------------------------------------------------------------------------------------
+    r6 = res.rule("C17.R6", "a comment is the text between the quotes, verbatim: the parser never transforms text - the only operations applied to a `str`/`String` in the parser module are reading the matched text, number parsing and owning conversions (as_str, parse, to_string / to_owned / into / from, into_boxed_str, Arc::from); build_comment_inner returns the owned text of its pair")
+    ALLOWED = re.compile(r"(Pair::<.*>::as_str|<impl str>::parse|ToString>::to_string|ToOwned>::to_owned|String::into_boxed_str|Arguments::<.*>::from_str|String::from|From<.*>>::from|Into<.*>>::into|Arc<.*>::from|str>::as_ref|String::as_str|Deref>::deref|Clone>::clone|fmt::Display|fmt::Debug|String::new|String::len|<impl str>::len|<impl str>::is_empty|String::is_empty|PartialEq.*::eq|PartialEq.*::ne)$")
+    n_ops = 0
+    for fid, fn in sorted(prog.fns.items()):
+        if not fid.startswith("opening_hours_syntax::parser"):
+            continue
+        for bb, t in fn.calls():
+            cal = t.get("callee") or {}
+            nm = flow.call_name(t) or ""
+            sty = (cal.get("self_ty") or "").replace("&", "").replace("mut ", "").strip()
+            textual = sty in ("str", "alloc::string::String", "std::string::String") or "<impl str>" in nm or "alloc::string::String::" in nm or "alloc::str::" in nm
+            if not textual:
+                continue
+            n_ops += 1
+            r6.check(ALLOWED.search(nm) is not None, {"fn": fid.split("::")[-1], "text_operation": nm.split("::")[-1]}, "C17.R6:%s:%s" % (fid.split("::")[-1], nm.split("::")[-1]),
+                     "%s applies `%s` to parsed text: the parser is expected to keep text as written (a comment `\" ring \"` must be reported with its spaces; two comments differing in what was transformed away become one)" % (fid, nm), lib.where_of(fn, t))
+    bci = prog.require_fn("opening_hours_syntax::parser::build_comment_inner")
+    sh = flow.shape(bci, 0, depth=6)
+    r6.check(re.fullmatch(r"(::to_string|::to_owned|String::from|::into|::from)\(p1\)", sh) is not None, {"fn": "build_comment_inner", "returns": sh}, "C17.R6:inner", "build_comment_inner returns %s, not the owned text of its pair" % sh, lib.where_of(bci))
+    r6.floor(15)
+
     witness.run_doctests(ctx, prog, res, "C17.W", "comments cannot be replaced by an arbitrary Vec, and a DateTimeRange cannot be forged outside the crate; twins compile", "c17", floor=4)
